@@ -13,7 +13,7 @@ EXPLANATION = ("static pairing/typestate rules over the MIR of wac-graph: every 
                "def-use provenance of the arguments; decides these structural necessary conditions, not the "
                "behaviour over operation histories")
 
-SG = "petgraph::prelude::StableGraph::"
+SG = "petgraph::graph_impl::stable_graph::StableGraph::"
 GRAPH = "wac_graph::graph::"
 
 
@@ -27,7 +27,7 @@ def satisfied_helpers(ctx):
             continue
         for t in f.calls():
             p = t.path or ""
-            if not p.startswith("std::collections::HashSet::"):
+            if "::HashSet::" not in p:
                 continue
             sl = narrow(prov, f, t.args[0])
             if not sl.has_field("0", "graph::NodeKind"):
@@ -169,8 +169,8 @@ def check_node_removal(ctx, f, cfg, t, m, remover_ids, site):
     ctx.ob("R06.1", "%s|%s" % (m, f.id), ok, why, site=site)
 
     # --- R06.2 / R06.3 / R06.4: the three maps
-    for field, rule, kinds in (("exports", "R06.2", ("indexmap::IndexMap::",)), ("imports", "R06.3", ("std::collections::HashMap::",)),
-                               ("defined", "R06.4", ("std::collections::HashMap::",))):
+    for field, rule, kinds in (("exports", "R06.2", ("indexmap::map::IndexMap::",)), ("imports", "R06.3", ("std::collections::hash::map::HashMap::",)),
+                               ("defined", "R06.4", ("std::collections::hash::map::HashMap::",))):
         if m == "retain_nodes":
             cs = [c for c in f.calls() if (c.path or "").endswith("::retain") and (c.path or "").startswith(kinds)
                   and narrow(prov, f, c.args[0]).has_field(field, "graph::CompositionGraph")]
@@ -204,7 +204,7 @@ def is_export_purger(ctx, f, c, depth=0):
     or a local callee whose body has a CFG cycle containing swap_remove/shift_remove on the field."""
     db, prov = ctx.db, ctx.prov
     p = c.path or ""
-    if p.startswith("indexmap::IndexMap::") and p.endswith("::retain") and narrow(prov, f, c.args[0]).has_field("exports", "graph::CompositionGraph"):
+    if p.startswith("indexmap::map::IndexMap::") and p.endswith("::retain") and narrow(prov, f, c.args[0]).has_field("exports", "graph::CompositionGraph"):
         return True
     g = db.fns.get(p)
     if g is None or depth > 1:
@@ -212,7 +212,7 @@ def is_export_purger(ctx, f, c, depth=0):
     cfg = CFG(g)
     for x in g.calls():
         xp = x.path or ""
-        if xp.startswith("indexmap::IndexMap::") and xp.rsplit("::", 1)[1] in ("swap_remove", "shift_remove", "remove") \
+        if xp.startswith("indexmap::map::IndexMap::") and xp.rsplit("::", 1)[1] in ("swap_remove", "shift_remove", "remove") \
                 and narrow(prov, g, x.args[0]).has_field("exports", "graph::CompositionGraph"):
             if cfg.reaches(x.bb, x.bb):
                 # the key must come from scanning the map for the node (comparison against the index parameter)
@@ -232,7 +232,7 @@ def check_maps(ctx, gfns):
         # bodies that clear Node.export (Option::take / assignment of None)
         clears = []
         for t in f.calls():
-            if (t.path or "").endswith("option::Option::take") and narrow(prov, f, t.args[0]).has_field("export", "graph::Node"):
+            if (t.path or "").endswith("::Option::take") and narrow(prov, f, t.args[0]).has_field("export", "graph::Node"):
                 clears.append(t)
         if clears:
             cfg = CFG(f)
@@ -283,7 +283,7 @@ def check_cascade(ctx, gfns):
         cfg = CFG(f)
         ctx.touch(f)
         # is the Option result of StableGraph::remove_node unwrapped?
-        unwrapped = any((c.path or "").endswith(("Option::expect", "Option::unwrap")) and
+        unwrapped = any((c.path or "").endswith(("::Option::expect", "::Option::unwrap")) and
                         any(x in rm for _, x in prov.slice(f, c.args[0]).calls) for c in f.calls())
         for t in rec:
             n += 1
@@ -376,7 +376,7 @@ def check_uniqueness(ctx):
         cfg = None
         for t in f.calls():
             p = t.path or ""
-            if not p.endswith("::insert") or not p.startswith(("std::collections::HashMap::", "indexmap::IndexMap::")):
+            if not p.endswith("::insert") or not p.startswith(("std::collections::hash::map::HashMap::", "indexmap::map::IndexMap::")):
                 continue
             rsl = narrow(prov, f, t.args[0])
             fld = [x for x in ("imports", "exports", "defined", "package_map") if rsl.has_field(x, "graph::CompositionGraph")]
